@@ -72,6 +72,14 @@ def _cls(ref):
     return resolve_ref(ref)[2]
 
 
+def _orig():
+    from mitmproxy.addons import view as vm
+    return {"_base_add": vm.View.__dict__["_base_add"], "_refilter": vm.View.__dict__["_refilter"]}
+
+
+_ORIG = _orig()   # the real methods, captured before any native-mode summary patches the class
+
+
 # ---- trusted contract for the sorted list (proof mode) -------------------------------------------------------------
 
 def install_sorted_model(vc):
@@ -185,7 +193,8 @@ class VS:
     in the pre-state (a flow that changed since it was last announced: the argument of update(); all flows when the filter changes).
     caches: "all" = every stored flow has both orders' keys cached, "minimal" = only visible flows have the selected order's key."""
 
-    def __init__(self, vc, states, view_order, order="time", focus=None, loose_vis=(), loose_cache=(), caches="all", nflows=3):
+    def __init__(self, vc, states, view_order, order="time", focus=None, loose_vis=(), loose_cache=(), caches="all", nflows=3,
+                 focus_any=False, focus_handlers=True, abstract=()):
         self.vc = vc
         self.states = list(states)
         self.n = nflows
@@ -222,7 +231,9 @@ class VS:
         self.view_order = list(view_order)
         assert sorted(view_order) == [i for i in range(nflows) if states[i] == "visible"]
         self.focus_idx = focus
-        assert (focus is None) == (not view_order) and (focus is None or focus in view_order)
+        assert focus_any or ((focus is None) == (not view_order) and (focus is None or focus in view_order))
+        self.focus_handlers = focus_handlers
+        self.ghost = []
         size_of = {ids[i]: self.true_key["size"][i] for i in range(nflows)}
         match_of = {ids[i]: self.match[i] for i in range(nflows)}
         h = self
@@ -244,6 +255,24 @@ class VS:
             return f
 
         vc.summary("mitmproxy.addons.view:OrderKeySize.generate", gen_size)
+        if "_base_add" in abstract:
+            # contract of View._base_add (proved in scenario base_add): f joins the view (position: see there). Here: ghost append.
+            def base_add(v, self_, f):
+                h.ghost.append(("base_add", f))
+                if v.mode == "native":
+                    return _ORIG["_base_add"](self_, f)
+                sl = self_.fields["_view"]
+                sl.fields["_items"].items.append(f)
+                sl.fields["_skeys"].items.append(NONE)
+                return NONE
+            vc.summary(V + "._base_add", base_add)
+        if "_refilter" in abstract:
+            def refilter(v, self_):
+                h.ghost.append(("refilter", list(h.store_ids())))
+                if v.mode == "native":
+                    return _ORIG["_refilter"](self_)
+                return NONE
+            vc.summary(V + "._refilter", refilter)
         install_sorted_model(vc)
         if sym:
             self._build_sym(flt, lg)
@@ -297,9 +326,10 @@ class VS:
         f["focus_follow"] = self.focus_follow
         f["_view"] = sl
         f["sig_view_update"] = sig(SConst(G["_lg_update"]))
-        f["sig_view_add"] = sig(bm(focus, FOCUS + "._sig_view_add"), SConst(G["_lg_add"]))
-        f["sig_view_remove"] = sig(bm(focus, FOCUS + "._sig_view_remove"), SConst(G["_lg_remove"]))
-        f["sig_view_refresh"] = sig(bm(focus, FOCUS + "._sig_view_refresh"), SConst(G["_lg_refresh"]))
+        fh = self.focus_handlers
+        f["sig_view_add"] = sig(*([bm(focus, FOCUS + "._sig_view_add")] if fh else []), SConst(G["_lg_add"]))
+        f["sig_view_remove"] = sig(*([bm(focus, FOCUS + "._sig_view_remove")] if fh else []), SConst(G["_lg_remove"]))
+        f["sig_view_refresh"] = sig(*([bm(focus, FOCUS + "._sig_view_refresh")] if fh else []), SConst(G["_lg_refresh"]))
         f["sig_store_remove"] = sig(bm(settings, SETTINGS + "._sig_store_remove"), SConst(G["_lg_store_remove"]))
         f["sig_store_refresh"] = sig(bm(settings, SETTINGS + "._sig_store_refresh"), SConst(G["_lg_store_refresh"]))
         f["focus"] = focus
@@ -329,6 +359,10 @@ class VS:
         for i in self.view_order:
             v._view.add(self.flows[i])
         v.focus._flow = None if self.focus_idx is None else self.flows[self.focus_idx]
+        if not self.focus_handlers:
+            v.sig_view_add.disconnect(v.focus._sig_view_add)
+            v.sig_view_remove.disconnect(v.focus._sig_view_remove)
+            v.sig_view_refresh.disconnect(v.focus._sig_view_refresh)
         for s, cb in zip((v.sig_view_add, v.sig_view_remove, v.sig_view_update, v.sig_view_refresh, v.sig_store_remove, v.sig_store_refresh, v.focus.sig_change), self.keep[1:]):
             s.connect(cb)
 
@@ -396,7 +430,7 @@ class VS:
         return And(self.match[i], Or(Not(self.show_marked), len_(self.marked[i]) > 0))
 
     # ---- the class invariants as obligations ------------------------------------------------------------------------
-    def check(self, tag, skip_vis=(), skip_cache=(), show_marked=None):
+    def check(self, tag, skip_vis=(), skip_cache=(), show_marked=None, ord=True, foc=True):
         vc = self.vc
         items = self.view_items()
         idxs = [self.idx(f) for f in items]
@@ -412,6 +446,12 @@ class VS:
                 continue
             spec = And(self.match[i], Or(Not(sm), len_(self.marked[i]) > 0)) if self.ids[i] in stored else False
             vc.ensure(f"{tag}.Vis.exactly_matching[{i}]", Iff(i in idxs, spec))
+        vc.ensure(f"{tag}.Set", all(k in stored for k in self.settings_ids()))
+        if foc:
+            ff = self.focus_flow()
+            vc.ensure(f"{tag}.Foc", (ff is None and not items) or (ff is not None and any(ff is f for f in items)))
+        if not ord:
+            return
         cur = self.current_order()
         vc.ensure(f"{tag}.Ord.order_is_known", cur is not None)
         if cur is None:
@@ -429,9 +469,6 @@ class VS:
             for o in ("time", "size"):
                 if o in cache[i]:
                     vc.ensure(f"{tag}.Ord.cached_key_is_current[{o}]", cache[i][o] == self.true_key[o][i])
-        foc = self.focus_flow()
-        vc.ensure(f"{tag}.Foc", (foc is None and not items) or (foc is not None and any(foc is f for f in items)))
-        vc.ensure(f"{tag}.Set", all(k in stored for k in self.settings_ids()))
 
     def check_signals(self, tag, before):
         """Sig: add/remove/update notifications replayed on the membership before the call give the membership after it; each
@@ -598,28 +635,26 @@ def s_remove(vc):
     vc.ensure("remove.frame.others_keep_their_place", all(a is c for a, c in zip(st.view_items(), [f for f in before if f is not t])))
 
 
-@scenario("refilter", functions=[V + "._refilter", V + ".toggle_marked", V + ".set_filter", V + "._base_add", FOCUS + "._sig_view_refresh", FOCUS + "._nearest", V + "._bisect", V + "._rev"])
+@scenario("refilter", functions=[V + "._refilter", V + ".toggle_marked", V + ".set_filter"])
 def s_refilter(vc):
-    # the filter / marked-only flag is about to change: the pre-state view is consistent with the OLD filter (verdicts unrelated
-    # to the new ones), so nothing is assumed about which stored flows are visible
+    """Selection logic of a complete refresh. Compositional: View._base_add is replaced by its contract (scenario base_add) and the
+    Focus refresh handler by its contract (scenario focus.refresh); the pre-state view is consistent with the OLD filter/flag, so
+    nothing is assumed about which stored flows are visible."""
     how = vc.case("via", ["toggle_marked", "set_filter", "set_filter_none"])
     t0 = vc.case("flow0", ["hidden", "visible"])
-    o12 = vc.case("other_flows", [("absent", "absent"), ("visible", "hidden"), ("visible", "visible")])
+    o12 = vc.case("other_flows", [("absent", "absent"), ("visible", "hidden"), ("visible", "visible"), ("hidden", "visible")])
     states = [t0, o12[0], o12[1]]
-    order, caches = vc.case("order_and_caches", TWO_COMBOS)
     view_order = [i for i in range(3) if states[i] == "visible"]
-    focus = vc.case("focus", view_order) if view_order else None
-    st = VS(vc, states, view_order, order=order, focus=focus, loose_vis=(0, 1, 2), caches=caches)
+    focus = view_order[0] if view_order else None
+    st = VS(vc, states, view_order, order="time", focus=focus, loose_vis=(0, 1, 2), caches="all", focus_handlers=False, abstract=("_base_add",))
     if how == "set_filter_none" and vc.mode == "sym":
         # flowfilter.match_all is a constant filter object (FAll: always True; its evaluator is contracted in C42)
         vc.summary("mitmproxy.flowfilter:?", lambda v, f: v.lift(True))
-    before = st.view_items()
     stored_before = st.store_ids()
     if how == "toggle_marked":
         out = vc.call(V + ".toggle_marked", st.view)
         sm = Not(st.show_marked)
     elif how == "set_filter":
-        # the same predicate object re-installed (its verdicts are the symbolic match_i)
         flt = st.view.fields["filter"] if vc.mode == "sym" else st.view.filter
         out = vc.call(V + ".set_filter", st.view, flt)
         sm = st.show_marked
@@ -630,16 +665,71 @@ def s_refilter(vc):
     vc.ensure("refilter.total", out.ok)
     if not out.ok:
         return
+    now = st.view.fields["show_marked"] if vc.mode == "sym" else st.view.show_marked
+    vc.ensure("refilter.flag", vc.eq(now, sm))
     vc.ensure("refilter.store_unchanged", st.store_ids() == stored_before)
-    st.check("refilter", show_marked=sm)
-    vc.ensure("refilter.Sig.refresh_announced", any(e[0] == "refresh" for e in st.log))
-    # store order is kept among equal keys is not required; but every visible flow is listed exactly once (checked in Vis)
+    st.check("refilter", show_marked=sm, ord=False, foc=False)
+    # each qualifying flow is handed to _base_add exactly once, in store order, after the old view was emptied
+    added = [st.idx(g[1]) for g in st.ghost if g[0] == "base_add"]
+    vc.ensure("refilter.base_add_once_each_in_store_order", added == sorted(added) and len(set(added)) == len(added) and added == [st.idx(f) for f in st.view_items()])
+    kinds = [e[0] for e in st.log]
+    vc.ensure("refilter.Sig.refresh_announced_once_after_the_change", kinds == ["refresh"] and len(st.log[0][2]) == len(st.view_items()))
 
 
-@scenario("clear", functions=[V + ".clear", V + ".clear_not_marked", V + "._refilter", FOCUS + "._sig_view_refresh", SETTINGS + "._sig_store_refresh"])
+@scenario("base_add", functions=[V + "._base_add", V + "._order_key_name", "mitmproxy.addons.view:_OrderKey.__call__", "mitmproxy.addons.view:_OrderKey._key", SETTINGS + ".__getitem__"])
+def s_base_add(vc):
+    """_base_add(f) for a stored flow f that is not in the view: f is inserted so that the view stays sorted by the selected order,
+    its key for that order is cached, nothing else moves."""
+    st = mk_state(vc, ["hidden"], others=[("absent", "absent"), ("visible", "absent"), ("visible", "visible"), ("hidden", "visible")])
+    t = st.flows[0]
+    before = st.view_items()
+    out = vc.call(V + "._base_add", st.view, t)
+    vc.ensure("base_add.total", out.ok)
+    if not out.ok:
+        return
+    vc.ensure("base_add.inserted_once", len([f for f in st.view_items() if f is t]) == 1 and len(st.view_items()) == len(before) + 1)
+    vc.ensure("base_add.others_keep_their_order", all(a is c for a, c in zip([f for f in st.view_items() if f is not t], before)))
+    vc.ensure("base_add.no_signal", st.log == [])
+    st.check("base_add", skip_vis=(0,), foc=False)
+
+
+@scenario("focus.refresh", functions=[FOCUS + "._sig_view_refresh", FOCUS + "._nearest", FOCUS + ".flow", V + "._bisect", V + "._rev", V + ".__getitem__", V + ".__contains__", V + ".__len__"])
+def s_focus_refresh(vc):
+    """After a complete refresh the view is arbitrary (sorted, duplicate-free) and the old focus may be any flow or None:
+    the handler must re-establish Foc, and keep a focus that is still visible."""
+    states = list(vc.case("flows", [("absent", "absent", "absent"), ("visible", "absent", "absent"), ("hidden", "visible", "absent"), ("visible", "visible", "hidden"),
+                                    ("absent", "visible", "visible"), ("visible", "visible", "visible")]))
+    view_order = [i for i in range(3) if states[i] == "visible"]
+    focus = vc.case("old_focus", [None, 0, 1, 2])
+    order, caches = vc.case("order_and_caches", TWO_COMBOS)
+    st = VS(vc, states, view_order, order=order, focus=focus, caches=caches, focus_any=True)
+    foc = st.view.fields["focus"] if vc.mode == "sym" else st.view.focus
+    items = st.view_items()
+    out = vc.call(FOCUS + "._sig_view_refresh", foc)
+    vc.ensure("focus.refresh.total", out.ok)
+    if not out.ok:
+        return
+    ff = st.focus_flow()
+    vc.ensure("focus.refresh.Foc", (ff is None and not items) or (ff is not None and _in(ff, items)))
+    if focus is not None and _in(st.flows[focus], items):
+        vc.ensure("focus.refresh.visible_focus_kept", ff is st.flows[focus])
+    vc.ensure("focus.refresh.view_untouched", len(st.view_items()) == len(items) and all(a is c for a, c in zip(st.view_items(), items)))
+    changed = not ((ff is None and focus is None) or (focus is not None and ff is st.flows[focus]))
+    vc.ensure("focus.refresh.change_announced", (not changed) or any(e[0] == "focus_change" for e in st.log))
+
+
+@scenario("clear", functions=[V + ".clear", V + ".clear_not_marked", FOCUS + "._sig_view_refresh", SETTINGS + "._sig_store_refresh"])
 def s_clear(vc):
     how = vc.case("op", ["clear", "clear_not_marked"])
-    st = mk_state(vc, ["hidden", "visible"], others=[("absent", "absent"), ("visible", "hidden"), ("visible", "visible")], combos=TWO_COMBOS)
+    st_args = dict(combos=TWO_COMBOS)
+    t = vc.case("target_state", ["hidden", "visible"])
+    o12 = vc.case("other_flows", [("absent", "absent"), ("visible", "hidden"), ("visible", "visible")])
+    states = [t, o12[0], o12[1]]
+    view_order = [i for i in range(3) if states[i] == "visible"]
+    focus = vc.case("focus", view_order) if view_order else None
+    order, caches = vc.case("order_and_caches", TWO_COMBOS)
+    # clear_not_marked = drop unmarked flows from the store, then a complete refresh (View._refilter, contracted in scenario refilter)
+    st = VS(vc, states, view_order, order=order, focus=focus, caches=caches, abstract=("_refilter",) if how == "clear_not_marked" else ())
     stored_before = st.store_ids()
     out = vc.call(V + "." + how, st.view)
     vc.ensure("clear.total", out.ok)
@@ -650,14 +740,18 @@ def s_clear(vc):
         vc.ensure("clear.view_empty", st.view_items() == [])
         vc.ensure("clear.focus_none", st.focus_flow() is None)
         vc.ensure("clear.settings_empty", st.settings_ids() == [])
-    else:
-        # exactly the marked flows stay stored (in order)
-        for i in range(3):
-            if st.ids[i] in stored_before:
-                vc.ensure(f"clear_not_marked.kept_iff_marked[{i}]", Iff(st.ids[i] in st.store_ids(), len_(st.marked[i]) > 0))
-        vc.ensure("clear_not_marked.nothing_new", all(i in stored_before for i in st.store_ids()))
-    st.check(how)
-    vc.ensure(how + ".Sig.refresh_announced", any(e[0] == "refresh" for e in st.log) and any(e[0] == "store_refresh" for e in st.log))
+        st.check("clear")
+        kinds = [e[0] for e in st.log if e[0] != "focus_change"]
+        vc.ensure("clear.Sig.refresh_announced", kinds == ["refresh", "store_refresh"])
+        return
+    # exactly the marked flows stay stored, in their old order
+    for i in range(3):
+        if st.ids[i] in stored_before:
+            vc.ensure(f"clear_not_marked.kept_iff_marked[{i}]", Iff(st.ids[i] in st.store_ids(), len_(st.marked[i]) > 0))
+    vc.ensure("clear_not_marked.nothing_new_and_order_kept", st.store_ids() == [i for i in stored_before if i in st.store_ids()])
+    vc.ensure("clear_not_marked.refilters_after_the_store_changed", [g for g in st.ghost if g[0] == "refilter"] == [("refilter", st.store_ids())])
+    vc.ensure("clear_not_marked.Set", all(k in st.store_ids() for k in st.settings_ids()))
+    vc.ensure("clear_not_marked.Sig.store_refresh_announced", [e[0] for e in st.log if e[0] == "store_refresh"] == ["store_refresh"])
 
 
 @scenario("set_order", functions=[V + ".set_order", V + ".set_reversed", "mitmproxy.addons.view:_OrderKey.__call__"])
